@@ -280,3 +280,87 @@ fn kempston_mouse() {
     }
     kani::cover!(true);
 }
+
+/// C17: the controller hands every mouse event to the mouse device when one is configured (the
+/// device's own behaviour is `kempston_mouse`): same effect as on a twin device, and nothing
+/// happens - in particular no panic - without a mouse.
+#[kani::proof]
+#[kani::unwind(9)]
+#[kani::stub(libm::sqrt, sqrt_stub)]
+fn mouse_events_reach_device() {
+    let with_mouse: bool = kani::any();
+    let mut c = ZXController::<VHost>::new(&settings(any_machine(), kani::any(), with_mouse, false), VContext);
+    kani::assert(c.mouse.is_some() == with_mouse, "C17: mouse present iff enabled");
+    let (b0, x0, y0): (u8, u8, u8) = (kani::any(), kani::any(), kani::any());
+    let mut twin = KempstonMouse::default();
+    twin.buttons_port = b0;
+    twin.x_pos_port = x0;
+    twin.y_pos_port = y0;
+    if let Some(m) = &mut c.mouse {
+        m.buttons_port = b0;
+        m.x_pos_port = x0;
+        m.y_pos_port = y0;
+    }
+    let which: u8 = kani::any();
+    kani::assume(which < 3);
+    if which == 0 {
+        let b: u8 = kani::any();
+        kani::assume(b < 4);
+        let pressed: bool = kani::any();
+        let btn = |k: u8| match k {
+            0 => KempstonMouseButton::Left,
+            1 => KempstonMouseButton::Right,
+            2 => KempstonMouseButton::Middle,
+            _ => KempstonMouseButton::Additional,
+        };
+        c.send_mouse_button(btn(b), pressed);
+        twin.send_button(btn(b), pressed);
+    } else if which == 1 {
+        let up: bool = kani::any();
+        let dir = |u: bool| if u { KempstonMouseWheelDirection::Up } else { KempstonMouseWheelDirection::Down };
+        c.send_mouse_wheel(dir(up));
+        twin.send_wheel(dir(up));
+    } else {
+        let (dx, dy): (i8, i8) = (kani::any(), kani::any());
+        c.send_mouse_pos_diff(dx, dy);
+        twin.send_pos_diff(dx, dy);
+    }
+    if let Some(m) = &c.mouse {
+        kani::assert(m.buttons_port == twin.buttons_port && m.x_pos_port == twin.x_pos_port && m.y_pos_port == twin.y_pos_port,
+            "C17: mouse event reaches the configured mouse");
+    }
+    kani::cover!(c.mouse.is_some());
+    kani::cover!(c.mouse.is_none());
+}
+
+/// C17: the emulator hands a Kempston joystick event to the joystick when one is configured.
+#[kani::proof]
+#[kani::unwind(10)]
+#[kani::stub(libm::sqrt, sqrt_stub)]
+fn kempston_events_reach_device() {
+    use crate::emulator::Emulator;
+    let with_joy: bool = kani::any();
+    let mut e = Emulator::<VHost>::new(settings(ZXMachine::Sinclair48K, with_joy, false, false), VContext).ok().unwrap();
+    kani::assert(e.verif_ctl().kempston.is_some() == with_joy, "C17: joystick present iff enabled");
+    let st: u8 = kani::any();
+    if let Some(j) = &mut e.verif_ctl().kempston {
+        j.verif_set_state(st);
+    }
+    let b: u8 = kani::any();
+    kani::assume(b < 5);
+    let key = |k: u8| match k {
+        0 => KempstonKey::Right,
+        1 => KempstonKey::Left,
+        2 => KempstonKey::Down,
+        3 => KempstonKey::Up,
+        _ => KempstonKey::Fire,
+    };
+    let pressed: bool = kani::any();
+    e.send_kempston_key(key(b), pressed);
+    if let Some(j) = &e.verif_ctl().kempston {
+        let exp = if pressed { st | (1 << b) } else { st & !(1 << b) };
+        kani::assert(j.read() == exp, "C17: Kempston event reaches the configured joystick");
+    }
+    kani::cover!(with_joy);
+    kani::cover!(!with_joy);
+}
